@@ -81,6 +81,64 @@ Proof.
       eexists; eexists; split; reflexivity.
 Qed.
 
+(* MEV with endogenous-sampling correction (logmev_endogenous_sampling / mev_endogenous_sampling):
+   a proper distribution for arbitrary ln G_i and correction terms; the probability builder is exp
+   of the log builder; with one and the same correction for all alternatives it is the MEV model.
+   The builders are functions of their arguments: calling them any number of times with the same
+   dictionaries gives the same tree (stream prob_values checks that the implementation leaves the
+   caller's dictionaries untouched, one call per alternative and per function, in several orders). *)
+Theorem T05d_mev_es_proper : forall Phi en util (lg cr : Z -> res pv) av aval,
+  NoDup (keys util) ->
+  av_ok Phi en av aval -> av_covers av (keys util) ->
+  (forall k, In k (keys util) -> exists g c, lg k = Ok g /\ cr k = Ok c) ->
+  (forall k v g c, In (k, v) util -> lg k = Ok g -> cr k = Ok c -> aval k <> 0 ->
+                   exists x y z, pvX Phi en v = XR x /\ pvX Phi en g = XR y /\ pvX Phi en c = XR z) ->
+  (exists k, In k (keys util) /\ aval k <> 0) ->
+  exists p,
+    (forall i ch, In i (keys util) -> pvX Phi en ch = XR (IZR i) ->
+       exists l, logmev_es_f util lg cr av ch = Ok l /\
+                 evalX Phi (EUn Exp l) en = XR (p i) /\
+                 evalX Phi l en = (if Rnz (aval i) then XR (ln (p i)) else XmInf)) /\
+    is_distribution (keys util) aval p.
+Proof. exact mev_es_proper. Qed.
+Print Assumptions T05d_mev_es_proper.
+
+Theorem T05d_mev_es_equal_corrections : forall Phi en (U : dict expr) (lg cr : Z -> res pv) av aval
+    (uval gval : Z -> R) (c0 : R),
+  av_ok Phi en av aval -> av_covers av (keys U) ->
+  (forall k e, In (k, e) U -> aval k <> 0 -> evalX Phi e en = XR (uval k)) ->
+  (forall k g, lg k = Ok g -> aval k <> 0 -> pvX Phi en g = XR (gval k)) ->
+  (forall k c, cr k = Ok c -> aval k <> 0 -> pvX Phi en c = XR c0) ->
+  forall i ch l l', In i (keys U) -> pvX Phi en ch = XR (IZR i) ->
+    logmev_es_f (pe_dict U) lg cr av ch = Ok l -> logmev_f (pe_dict U) lg av ch = Ok l' ->
+    evalX Phi l en = evalX Phi l' en /\ evalX Phi (EUn Exp l) en = evalX Phi (EUn Exp l') en.
+Proof. exact mev_es_equal_corrections. Qed.
+Print Assumptions T05d_mev_es_equal_corrections.
+
+Theorem T05h_mev_es_is_exp_of_log : forall util g av c ch t,
+  mev_endogenous_sampling util g av c ch = Ok t
+  <-> exists l, logmev_endogenous_sampling util g av c ch = Ok l /\ t = EUn Exp l.
+Proof. exact mev_es_is_exp_of_log. Qed.
+Print Assumptions T05h_mev_es_is_exp_of_log.
+
+Example T05d_es_example : forall Phi,
+  let G := [(1, PE (EVar "g1")); (2, PN d_zero); (3, PE (EBeta "b" false))]%Z in
+  let C := [(1, PN d_one); (2, PE (EBeta "w2" true)); (3, PN (3, -1))]%Z in
+  let lg := fun k => of_option 2 (get G k) in
+  let cr := fun k => of_option 2 (get C k) in
+  (forall k, In k (keys (pe_dict U0)) -> exists g c, lg k = Ok g /\ cr k = Ok c) /\
+  (forall k v g c, In (k, v) (pe_dict U0) -> lg k = Ok g -> cr k = Ok c -> aval0 k <> 0 ->
+                   exists x y z, pvX Phi en0 v = XR x /\ pvX Phi en0 g = XR y /\ pvX Phi en0 c = XR z) /\
+  (exists l t, logmev_endogenous_sampling (pe_dict U0) G A0 C (PN d_one) = Ok l /\
+               mev_endogenous_sampling (pe_dict U0) G A0 C (PN d_one) = Ok t).
+Proof.
+  intros Phi G C lg cr. split; [|split].
+  - intros k H. simpl in H. destruct H as [<-|[<-|[<-|[]]]]; eexists; eexists; split; reflexivity.
+  - intros k v g c H Hg Hc _. in_cases H; unfold lg in Hg; unfold cr in Hc; simpl in Hg, Hc;
+      injection Hg as <-; injection Hc as <-; do 3 eexists; repeat split; reflexivity.
+  - do 2 eexists. split; vm_compute; reflexivity.
+Qed.
+
 (* ------------------------------------------------------------------ nested logit *)
 Theorem T05e_nested_proper : forall Phi en (U : dict expr) (av : avail) (a : nn_arg) (aval uval : Z -> R),
   av_ok Phi en av aval -> av_covers av (keys U) ->
